@@ -180,7 +180,11 @@ func ZZ_C11_RechargeThenRequest() {
 	p := zzSetup()
 	zzAccount(zzSupi, 1, 1000000, 10)
 	c0 := &gin.Context{}
-	p.HandleChargingdataInitial(c0, zzCreateReq("create", zzSupi))
+	create := zzCreateReq("create", zzSupi)
+	if vx.Choice("noNotifyUri", 2) == 1 {
+		create.NotifyUri = "" // the member is optional
+	}
+	p.HandleChargingdataInitial(c0, create)
 	loc := vx.HTTPHeader(c0, "Location")
 	vx.Assume(strings.HasPrefix(loc, zzRefPrefix))
 	ref := loc[len(zzRefPrefix):]
@@ -240,4 +244,43 @@ func ZZ_C11_RecordSplit() {
 			return
 		}
 	}
+}
+
+// C11 (sessions and one-time events mixed): a subscriber has a session and a
+// one-time event (in either order) - the event's record carries no session
+// identifier - and then the session is updated and released: no panic, 2xx/4xx.
+//
+//gosx:property=C11 tier=quick unwind=40 timeout=30000
+func ZZ_C11_OneTimeEventAndSession() {
+	p := zzSetup()
+	zzAccount(zzSupi, 1, 1000000, 10)
+	event := zzCreateReq("event", zzSupi)
+	event.OneTimeEvent = true
+	eventFirst := vx.Choice("eventFirst", 2) == 1
+	if eventFirst {
+		c := &gin.Context{}
+		zzNoPanic("one-time event create panicked", func() { p.HandleChargingdataInitial(c, event) })
+		vx.Assert("one-time event answered 2xx or 4xx", zzStatus2xx(c) || zzStatus4xx(c))
+	}
+	c0 := &gin.Context{}
+	p.HandleChargingdataInitial(c0, zzCreateReq("create", zzSupi))
+	loc := vx.HTTPHeader(c0, "Location")
+	vx.Assume(strings.HasPrefix(loc, zzRefPrefix))
+	ref := loc[len(zzRefPrefix):]
+	if !eventFirst {
+		c := &gin.Context{}
+		zzNoPanic("one-time event create panicked", func() { p.HandleChargingdataInitial(c, event) })
+		vx.Assert("one-time event answered 2xx or 4xx", zzStatus2xx(c) || zzStatus4xx(c))
+	}
+	u, _ := zzUsageInd("u0", 1, 1, 2)
+	zzSmallUsage(&u)
+	req := models.ChfConvergedChargingChargingDataRequest{SubscriberIdentifier: zzSupi,
+		MultipleUnitUsage: []models.ChfConvergedChargingMultipleUnitUsage{u}}
+	c1 := &gin.Context{}
+	zzNoPanic("update handler panicked", func() { p.HandleChargingdataUpdate(c1, req, ref) })
+	vx.Assert("update answered 2xx or 4xx", zzStatus2xx(c1) || zzStatus4xx(c1))
+	c2 := &gin.Context{}
+	zzNoPanic("release handler panicked", func() { p.HandleChargingdataRelease(c2, req, ref) })
+	vx.Assert("release answered 2xx or 4xx", zzStatus2xx(c2) || zzStatus4xx(c2))
+	vx.Assert("no lock left held", vx.LocksHeld() == 0)
 }
